@@ -78,6 +78,20 @@ def scenario(run, e4, sc):
         if not w0:
             return v, "server did not boot: %s" % srv.stderr()[-300:], info
         target = sc["workers"]
+        if kind == "upgraded":
+            # the master under observation is one that was started by a binary upgrade (USR2) and promoted
+            from checks.c14 import find_new_master
+            old = srv.master_pid
+            srv.signal(signal.SIGUSR2)
+            new = find_new_master(e4, srv, old, set(w0), timeout=20)
+            if new is None:
+                return v, "no new master after USR2: %s" % srv.error_log()[-200:], info
+            srv.wait_workers(sc["workers"], 20, master=new)
+            srv.signal(signal.SIGTERM, old)
+            if srv.wait_exit(old, 15) is None:
+                return v, "old master did not exit", info
+            srv.master_pid = new
+            time.sleep(1.2)
         for step in sc["steps"]:
             op = step[0]
             if op == "kill":
@@ -149,6 +163,7 @@ def plan(run, tier, seed):
         if tier == "quick" and (i + seed) % 2:
             continue
         out.append(dict(h, kind="history", **{"class": classes[(i + seed) % 4]}))
+    out.append({"kind": "upgraded", "workers": 2, "steps": [["kill", 1], ["sleep", 0.5], ["ttin"], ["kill", 2]], "class": classes[(seed + 1) % 3]})
     out.append({"kind": "bootfail3", "workers": 1, "class": "sync"})
     out.append({"kind": "bootfail4", "workers": 1, "class": classes[seed % 4]})
     out.append({"kind": "bootfail4", "workers": 2, "class": "sync"})
